@@ -23,10 +23,12 @@ PV_SCI = ["5.0e-01", "2.0e-05", "3.0e-03", "1.1e-01", "7.0e-07", "4.0e-02", "9.0
 # default configuration and, per dimension, the alternative values (deviations)
 DEFAULT = dict(ns=True, files=1, runs=1, spectra=1, hits=1, mods=(), prots="T", prefix="decoy_",
                desc=False, tricky=False, rotate=False, missed=True, ntt=True, nmatched=True,
-               ext_in_base=False, scores="plain")
+               ext_in_base=False, scores="plain", results=1)
 DIMS = dict(ns=[False], files=[2], runs=[2], spectra=[2], hits=[2], mods=MODSETS[1:], prots=PROTS[1:],
             prefix=["rev_"], desc=[True], tricky=[True], rotate=[True], missed=[False], ntt=[False],
-            nmatched=[False], ext_in_base=[True], scores=["pvalue", "pvalue_sci"])
+            nmatched=[False], ext_in_base=[True], scores=["pvalue", "pvalue_sci"],
+            # hits of one spectrum query spread over several <search_result> elements (one per search_id; schema-legal)
+            results=[2])
 
 
 def accession(is_target, prefix, tricky, g, j):
@@ -62,7 +64,9 @@ def build(cfg):
                          f'end_scan="{scan}" precursor_neutral_mass="{mass}" assumed_charge="{charge}" '
                          f'index="{s + 1}" retention_time_sec="{rt}">')
                 x.append("<search_result>")
-                for h in range(c["hits"]):
+                for h in range(c["hits"] * c["results"]):
+                    if h and h % c["hits"] == 0:
+                        x += ["</search_result>", f'<search_result search_id="{h // c["hits"] + 1}">']
                     rot = g if c["rotate"] else 0
                     mods = MODSETS[(MODSETS.index(c["mods"]) + rot) % len(MODSETS)]
                     prots = PROTS[(PROTS.index(c["prots"]) + rot) % len(PROTS)]
